@@ -37,10 +37,36 @@ func evalEnumFunc(fn *ssa.Function, param ssa.Value, arg constant.Value) constan
 				}
 				break
 			}
-			return core.ConstOf(v)
+			if c := core.ConstOf(v); c != nil {
+				return c
+			}
+			// value read from a package-level lookup table indexed by the parameter
+			if e, ok := v.(*ssa.Extract); ok && e.Index == 0 {
+				v = e.Tuple
+			}
+			if lk, ok := v.(*ssa.Lookup); ok && core.Canon(lk.Index) == param {
+				if val, _, ok := evalTableLookup(lk, arg); ok {
+					return val
+				}
+			}
+			return nil
 		case *ssa.Jump:
 			b = b.Succs[0]
 		case *ssa.If:
+			// `if v, ok := table[param]; ok`
+			if e, ok := x.Cond.(*ssa.Extract); ok && e.Index == 1 {
+				if lk, ok := e.Tuple.(*ssa.Lookup); ok && lk.CommaOk && core.Canon(lk.Index) == param {
+					if _, present, ok := evalTableLookup(lk, arg); ok {
+						if present {
+							b = b.Succs[0]
+						} else {
+							b = b.Succs[1]
+						}
+						continue
+					}
+				}
+				return nil
+			}
 			bo, ok := x.Cond.(*ssa.BinOp)
 			if !ok || (bo.Op != token.EQL && bo.Op != token.NEQ) {
 				return nil
@@ -68,6 +94,84 @@ func evalEnumFunc(fn *ssa.Function, param ssa.Value, arg constant.Value) constan
 		}
 	}
 	return nil
+}
+
+// evalTableLookup evaluates table[arg] for a package-level map that is filled once, in the package initialiser,
+// with constant keys and values. Returns (value, present, ok); an absent key yields the zero value.
+func evalTableLookup(lk *ssa.Lookup, arg constant.Value) (constant.Value, bool, bool) {
+	ld, ok := lk.X.(*ssa.UnOp)
+	if !ok || ld.Op != token.MUL {
+		return nil, false, false
+	}
+	g, ok := ld.X.(*ssa.Global)
+	if !ok {
+		return nil, false, false
+	}
+	ini := g.Pkg.Func("init")
+	if ini == nil {
+		return nil, false, false
+	}
+	var mk ssa.Value
+	nstores := 0
+	core.EachInstr(ini, func(in ssa.Instruction) {
+		if st, ok := in.(*ssa.Store); ok && st.Addr == ssa.Value(g) {
+			nstores++
+			mk = st.Val
+		}
+	})
+	if nstores != 1 {
+		return nil, false, false
+	}
+	if _, ok := mk.(*ssa.MakeMap); !ok {
+		return nil, false, false
+	}
+	// no other function may write the global or the map
+	written := false
+	if gCallSitesFor != nil {
+		for _, f := range gCallSitesFor.RepoFuncs() {
+			if f == ini {
+				continue
+			}
+			core.EachInstr(f, func(in ssa.Instruction) {
+				switch x := in.(type) {
+				case *ssa.Store:
+					if x.Addr == ssa.Value(g) {
+						written = true
+					}
+				case *ssa.MapUpdate:
+					if l, ok := x.Map.(*ssa.UnOp); ok && l.X == ssa.Value(g) {
+						written = true
+					}
+				}
+			})
+		}
+	}
+	if written {
+		return nil, false, false
+	}
+	var val constant.Value
+	present, all := false, true
+	core.EachInstr(ini, func(in ssa.Instruction) {
+		mu, ok := in.(*ssa.MapUpdate)
+		if !ok || mu.Map != mk {
+			return
+		}
+		k, v := core.ConstOf(mu.Key), core.ConstOf(mu.Value)
+		if k == nil || v == nil {
+			all = false
+			return
+		}
+		if constant.Compare(k, token.EQL, arg) {
+			present, val = true, v
+		}
+	})
+	if !all {
+		return nil, false, false
+	}
+	if !present {
+		val = constant.MakeInt64(0)
+	}
+	return val, present, true
 }
 
 func checkC18(p *core.Program, r *core.Report) {
